@@ -38,11 +38,13 @@ def _label(style: str, kind: str, idx: int, salt: str) -> str:
 SPECIAL_LABELS = ['_PLACEHOLDER_STR_', '_PLACEHOLDER_STR_', 'inf_label', 'big_or', 'big_or', 'circuit1', 'circuit2', 'pairwise_xor',
                   'circuit1@0', 'circuit2@g1', 'circuit2@x0', 'pairwise_xor@xor_0', 'xor_0', 'not_g1', 'not_x0', 'not_0', 's2', 's3',
                   'x_0', 'z_0', 'new_gate_LT_for_g1', 'new_0', 'new_9', 'new_14', 'new_23', 'new_40', 'N@g1', 'B@x0', 'sub0@g1',
-                  'block_for_deleting', '@', 'g1@', '0', '1']
+                  'block_for_deleting', '@', 'g1@', '0', '1',
+                  # falsy but legal: the empty label (twice: it has to show up often enough to sit at an interesting place)
+                  '', '']
 
 
 @st.composite
-def label_list(draw, n_in: int, n_g: int, styles=('plain', 'digits', 'mixed')):
+def label_list(draw, n_in: int, n_g: int, styles=('plain', 'digits', 'mixed'), empty_label: bool = True):
     """n_in + n_g pairwise distinct labels; returns (style, labels)."""
     style = draw(st.sampled_from(list(styles)))
     total = n_in + n_g
@@ -62,13 +64,16 @@ def label_list(draw, n_in: int, n_g: int, styles=('plain', 'digits', 'mixed')):
             salt = ''
         lab = _label(style, kind, k, salt)
         if style == 'mixed' and draw(st.integers(0, 5)) == 0:
-            lab = draw(st.sampled_from(SPECIAL_LABELS))
+            lab = draw(st.sampled_from(SPECIAL_LABELS if empty_label else [x for x in SPECIAL_LABELS if x]))
         if style == 'keyword' and draw(st.integers(0, 4)) == 0:
             lab = draw(st.sampled_from(BARE_KEYWORDS))
         if lab in used:
             lab = f'{lab}_u{k}'
         used.add(lab)
         labels.append(lab)
+    if empty_label and style == 'mixed' and total and '' not in used and draw(st.integers(0, 4)) == 0:
+        # one gate - anywhere - carries the empty label (legal, and falsy)
+        labels[draw(st.integers(0, total - 1))] = ''
     return style, labels
 
 
@@ -105,12 +110,13 @@ def netlists(
     dup_rate: int = 0,  # out of 8: chance that a gate literally duplicates an earlier gate
     const_operands=(0,),  # admissible operand counts of ALWAYS_TRUE / ALWAYS_FALSE gates
     sinks_as_outputs: bool = False,  # additionally list every gate nobody uses as an output (no dead logic)
+    empty_label: bool = True,  # the empty string may be a label (not where labels have to be identifiers of a text format)
 ):
     """Well-formed DAG netlist; gates listed inputs first then topologically."""
     types = list(types) if types is not None else ALL_TYPES
     n_in = draw(st.integers(min_inputs, max_inputs))
     n_g = draw(st.integers(min_gates, max_gates))
-    style, labels = draw(label_list(n_in, n_g, styles))
+    style, labels = draw(label_list(n_in, n_g, styles, empty_label))
     gates = [[labels[i], 'INPUT', []] for i in range(n_in)]
     nonconst = [t for t in types if t not in CONST]
     consts = [t for t in types if t in CONST]
